@@ -50,6 +50,8 @@ impl SharedGroup {
             }
             Strategy::Random => {
                 self.current_client_index = rand::thread_rng().gen_range(0..self.clients.len());
+                #[cfg(rumqtt_verif)]
+                crate::verif::record(format!("random {}", self.current_client_index));
             }
             Strategy::Sticky => {}
         }
@@ -125,5 +127,15 @@ mod tests {
         assert_eq!(group.current_client_index, 2);
         group.remove_client(&"C".into());
         assert_eq!(group.current_client_index, 0);
+    }
+}
+
+#[cfg(rumqtt_verif)]
+impl SharedGroup {
+    pub(crate) fn verif_dump(&self) -> String {
+        format!(
+            "{:?}@{}:{}.{}",
+            self.clients, self.current_client_index, self.cursor.0, self.cursor.1
+        )
     }
 }
